@@ -95,6 +95,11 @@ def main():
 
 
 if __name__ == '__main__':
+    import signal
+    try:
+        signal.signal(signal.SIGPIPE, signal.SIG_DFL)
+    except Exception:
+        pass
     rc = main()
     sys.stdout.flush()
     os._exit(rc)
